@@ -961,7 +961,9 @@ package kcp
 // SetDUP is deprecated (C14 covers the supported methods): dup is treated as configuration.
 // ===================================================================================
 //
-//@ shared UDPSession Listener blockCrypt rngAES rngChacha8 TimedSched
+//@ shared UDPSession Listener blockCrypt rngAES rngChacha8 TimedSched Snmp
+// the process-wide counters are shared by every session: sync/atomic only, whatever lock is held
+//@ atomic Snmp.*
 //@ owned KCP RingBuffer segmentHeap fecDecoder fecEncoder autoTune shardHeap
 //@ guard UDPSession.mu: *kcp fecDecoder *fecDecoder recvbuf recvbuf[] bufptr bufptr[] ackNoDelay writeDelay
 //@ confined UDPSession.postProcess: UDPSession.*fecEncoder
